@@ -316,6 +316,47 @@ def gen_rr_stress(rnd, cid, cap, nins):
     return lines
 
 
+def gen_big(rnd, kind, cid):
+    """a large capacity with a small max_load_factor: fill beyond capacity, look up / erase / re-insert early keys.
+    The index must not rehash while iterators into it are stored (C08: reserve vs. max_load_factor in the
+    constructor); small capacities never reach a rehash."""
+    cap = rnd.choice([64, 100])
+    lf = rnd.choice(["0.1", "0.25", "0.5"])
+    keys = list(range(1, cap + 9))
+    tl = 50
+    lines = ["case %s %d %d %d %s %d %d %d %d %d %d %s" % (cid, KID[kind], rnd.choice([0, 1]), rnd.choice([0, 1]), lf, cap, tl, 5, 1, 1,
+                                                         len(keys), " ".join(map(str, keys)))]
+    now = 1000 * MS
+    v = [500]
+
+    def ins(k):
+        v[0] += 1
+        lines.append("op %d insert %d %d %d 3" % (now, tl if kind == "tlru" else 0, k, 1 if kind == "ut_set" else v[0]))
+    for k in keys[:cap]:
+        ins(k)
+    pkarg = " 0" if kind in PEEK else " 0"
+    for k in rnd.sample(keys[:cap], 12):
+        lines.append("op %d find %d%s" % (now, k, pkarg))
+    for k in rnd.sample(keys[:cap], 8):
+        lines.append("op %d erase %d" % (now, k))
+    for k in keys[cap:] + rnd.sample(keys[:cap], 6):
+        ins(k)
+    ks = rnd.sample(keys, 5)
+    lines.append("op %d find_range %d %d %s" % (now, 0, len(ks), " ".join(map(str, ks))))
+    lines.append("probe %d" % now)
+    lines.append("end")
+    if kind == "rr":
+        # the driver infers rr's draws from the observation after an eviction, and the monitors want an observation
+        # on both sides of every call
+        out = []
+        for l in lines:
+            out.append(l)
+            if l.startswith("op "):
+                out.append("probe %d" % now)
+        lines = [l for i, l in enumerate(out) if not (l.startswith("probe") and i + 1 < len(out) and out[i + 1] == l)]
+    return lines
+
+
 def gen_exhaustive(kind):
     """every sequence of length <= 3 over a 13-18 letter alphabet, and of length 4 over a 7 letter core
     alphabet, for capacities 1 and 2 (thorough tier); 'tick' letters move the clock past the short deadline / tick"""
@@ -408,6 +449,10 @@ def main():
             mo = a.maxops if i % 4 else max(6, a.maxops // 4)
             for l in gen_case(rnd, a.kind, "%s-%d-%d" % (a.kind, a.seed, i), mo, stats, allow_ttl0=not a.no_ttl0):
                 f.write(l + "\n")
+        if a.kind not in ("ut_map", "ut_set"):
+            for j in range(2):
+                for l in gen_big(rnd, a.kind, "%s-%d-big%d" % (a.kind, a.seed, j)):
+                    f.write(l + "\n")
         if a.kind == "rr":
             for j, cap in enumerate([2, 3, 4, 5, 2, 3, 4, 5]):
                 for l in gen_rr_stress(rnd, "rr-%d-stress%d" % (a.seed, j), cap, 120):
